@@ -73,12 +73,12 @@ func genSeq(t *rapid.T, o genOpts) SCase {
 		case "cas":
 			op.Key, op.Val = key, rapid.IntRange(0, len(Vals)-1).Draw(t, "val")
 			op.Exp = rapid.SampledFrom(exps).Draw(t, "exp")
-			op.Ver = rapid.SampledFrom([]int{0, 0, 0, 1, 2, 3}).Draw(t, "ver")
+			op.Ver = rapid.SampledFrom([]int{0, 0, 0, 0, 1, 2, 3, 4, 5, 6, 7, 8, 9, 10}).Draw(t, "ver")
 		case "get", "delete":
 			op.Key = key
 		case "wait":
 			op.Key = key
-			op.Ver = rapid.SampledFrom([]int{0, 1, 1, 2, 3}).Draw(t, "ver")
+			op.Ver = rapid.SampledFrom([]int{0, 1, 1, 2, 3, 4, 5, 6, 7, 8, 9, 10}).Draw(t, "ver")
 		case "park":
 			op.Key = key
 		case "getmany":
